@@ -197,8 +197,6 @@ def bowl_family(rng, m, ps, og, k):
         elif r < 0.6: fs_.append(rng.choice(mirrors))
         elif r < 0.85: fs_.append(one(rng.randint(-(H - 1), H - 1), rng.randint(-(W - 1), W - 1))[0])
         else: fs_.append(rand_poly(rng))
-    if rng.random() < 0.15:
-        e = rng.choice([-40, -20, 20]); fs_ = [scaled(f, e) for f in fs_]
     return fs_
 def permuted_mask(rng, m):
     """same shape, same number of unmasked pixels, other positions"""
@@ -283,7 +281,7 @@ def gen_inputs(tier, rng):
                     yield {"op": "nativesub", "m": m, "ss": [2] * n, "via": "class", "int": True}
                 yield {"op": "centres", "m": m, "ps": ["2", "1/2"], "og": ["1/4", "-1/2"], "via": "from_mask" if n and mi % 2 else "util"}
     # (b) random, exact
-    nb = 2500 if big else 260
+    nb = 2500 if big else 230
     for _ in range(nb):
         m = rand_mask(rng); n = len(unmasked(m)); ps, og = rand_geo(rng)
         uniform = rng.random() < 0.3
@@ -313,7 +311,7 @@ def gen_inputs(tier, rng):
         m = rand_mask(rng, 4, 4, 8); ps, og = rand_geo(rng)
         yield {"op": "grid", "m": m, "ps": ps, "og": og, "ss": [4] * len(unmasked(m)), "via": "dataset_pix", "int": True}
     # iterative scheme
-    ni = 3000 if big else 330
+    ni = 3000 if big else 300
     for k in range(ni):
         m = rand_mask(rng, 4, 4, 10); ps, og = rand_geo(rng)
         thr, rel = rand_thr(rng); steps = rand_steps(rng)
@@ -366,6 +364,9 @@ def gen_inputs(tier, rng):
         rel = rng.choice([None, None, None, "1/16", "1/4"])
         steps = rng.choice([[2, 4], [2, 4], [2, 4, 8], [2, 4, 8], [2, 2, 4], [4, 8], [2, 4, 4]])
         fs_ = bowl_family(rng, m, ps, og, rng.choice([3, 3, 4]))
+        if rng.random() < 0.2:           # tiny / huge magnitudes; the absolute tolerance scales with the functions
+            e = rng.choice([-40, -30, -20, 20, 30]); fs_ = [scaled(f, e) for f in fs_]
+            if rel is not None: rel = fs(F(rel) * F(2) ** e)
         r = rng.random()
         if r < 0.4:
             yield {"op": "seq", "share": True, "steps": [{"op": "iter", "m": m, "ps": ps, "og": og, "thr": thr, "rel": rel, "steps": steps, "f": f} for f in fs_]}
@@ -389,12 +390,15 @@ def gen_inputs(tier, rng):
         cur = list(ss); st = []
         def binstep():
             return {"do": "bin", "arr": [fs(F(rng.randint(-64, 64), 8)) for _ in range(sum(s * s for s in cur))]}
-        for _ in range(rng.choice([0, 1, 2, 3, 4])):          # nothing cached yet
-            r = rng.random()
-            if r < 0.45:
-                i = rng.randrange(n); s = rng.choice([1, 2, 4]); cur[i] = s; st.append({"do": "edit", "i": i, "s": s})
-            elif r < 0.75: st.append({"do": "areas"})
-            else: st.append(binstep())
+        for _ in range(rng.choice([0, 1, 1, 2, 2, 3])):       # nothing cached yet: read -> in-place edit -> re-read
+            what = rng.choice(["areas", "areas", "bin", "both"])
+            def reads():
+                if what in ("areas", "both"): st.append({"do": "areas"})
+                if what in ("bin", "both"): st.append(binstep())
+            if rng.random() < 0.8: reads()
+            for _e in range(rng.choice([1, 1, 2])):
+                i = rng.randrange(n); s = rng.choice([x for x in (1, 2, 4) if x != cur[i]]); cur[i] = s; st.append({"do": "edit", "i": i, "s": s})
+            reads()
         for _ in range(rng.choice([3, 4, 5, 6])):
             r = rng.random()
             if r < 0.2: st.append({"do": "grid"})
